@@ -61,6 +61,8 @@ type c12Case struct {
 	Scheds [][]c12Fail `json:"scheds,omitempty"`
 	Sticky bool        `json:"sticky,omitempty"`
 	Rand   bool        `json:"rand,omitempty"`
+	// Warm: the same engine has rendered the page once (successfully, into a healthy writer) before the judged render.
+	Warm bool `json:"warm,omitempty"`
 }
 
 type c12 struct{}
@@ -447,6 +449,10 @@ func c12Enum(ctx core.Ctx) []c12Case {
 					cc := c
 					cc.WMode = wm
 					out = append(out, cc)
+					if (c.Entry == "render" || c.Entry == "renderfile") && strings.HasSuffix(wm, "once") {
+						cc.Warm = true // warm template cache, transient writer failure
+						out = append(out, cc)
+					}
 				}
 			} else {
 				out = append(out, c)
@@ -722,9 +728,10 @@ func c12Do(c c12Case, ctxMode string, w io.Writer) c12Res {
 		cctx, cancel = context.WithCancel(bg)
 	}
 	defer cancel()
+	cancelNow := cancel
 	funcs := vuego.FuncMap{
 		"boom":      c12Boom,
-		"cancelNow": func(v any) (any, error) { cancel(); return v, nil },
+		"cancelNow": func(v any) (any, error) { cancelNow(); return v, nil },
 	}
 	opts := []vuego.LoadOption{vuego.WithFuncs(funcs), vuego.WithProcessor(c12Proc{})}
 	var base vuego.Template
@@ -741,6 +748,12 @@ func c12Do(c c12Case, ctxMode string, w io.Writer) c12Res {
 		base = vuego.NewFS(fsys, opts...)
 	}
 	var err error
+	if c.Warm && (c.Entry == "render" || c.Entry == "renderfile") {
+		// one earlier render of the same page on the same engine, into a healthy writer
+		cancelNow = func() {}
+		_ = base.Load(c.Main).Fill(c.Data).Render(bg, io.Discard)
+		cancelNow = cancel
+	}
 	switch c.Entry {
 	case "render":
 		err = base.Load(c.Main).Fill(c.Data).Render(cctx, w)
